@@ -104,10 +104,32 @@ func VerifyFunction(L *Loaded, cs *ContractSet, fn *ssa.Function, opts VerifyOpt
 	// sentinel error globals are non-nil and pairwise distinct (trusted)
 	x.sentinelFacts(st)
 
+	x.fvPtrs = map[*ssa.FreeVar]Val{}
+	x.fvCells = map[string]*Cell{}
+	for _, fv := range fn.FreeVars {
+		T := fv.Type().(*types.Pointer).Elem()
+		c := x.newCell(fv.Name(), T, fv.Pos())
+		if !capturedImmutable(fn, fv) {
+			st.esc[c] = true
+		}
+		v := x.freshVal(st, "fv_"+fv.Name(), T)
+		v.Org = "param:" + fv.Name()
+		st.cells[c] = v
+		x.fvCells[fv.Name()] = c
+		x.inputs[fv.Name()] = v.T
+		x.fvPtrs[fv] = Val{Loc: &Loc{Kind: LCell, Cell: c, Elem: T}, Typ: fv.Type()}
+	}
 	fr0 := &Frame{fn: fn, params: params, isEntry: true, vals: map[ssa.Value]Val{}}
 	env := x.entryEnv(fr0, st)
+	for n, c := range x.fvCells {
+		env.vars[n] = st.cells[c]
+	}
 	var specErrs []string
 	env.errs = &specErrs
+	// object invariants of the receiver (or of the captured receiver of a closure)
+	for _, inv := range x.objInvsFor(fn, params, st) {
+		st.assume(inv)
+	}
 	if ctr != nil {
 		for _, c := range ctr.Requires {
 			st.assume(x.evalBool(env, c.Expr))
@@ -150,6 +172,131 @@ func VerifyFunction(L *Loaded, cs *ContractSet, fn *ssa.Function, opts VerifyOpt
 	res.SpecErrors = specErrs
 	res.Decls = d.Snapshot()
 	return res
+}
+
+// objInvsFor evaluates the object invariants that apply to fn's receiver
+// (for a closure: the captured variable holding the enclosing method's receiver).
+func (x *Exec) objInvsFor(fn *ssa.Function, params []Val, st *State) []Term {
+	root := rootFn(fn)
+	recv := root.Signature.Recv()
+	if recv == nil {
+		return nil
+	}
+	tn := recvTypeName(recv.Type())
+	invs := x.cs.ObjInvs[FuncPkgPath(fn)+"."+tn]
+	if len(invs) == 0 {
+		return nil
+	}
+	var self Val
+	found := false
+	if fn == root {
+		self, found = params[0], true
+	} else {
+		for _, fv := range fn.FreeVars {
+			T := fv.Type().(*types.Pointer).Elem()
+			if types.Identical(T, recv.Type()) {
+				if c, ok := x.fvCells[fv.Name()]; ok {
+					self, found = st.cells[c], true
+				}
+			}
+		}
+	}
+	if !found {
+		return nil
+	}
+	env := &Env{x: x, st: st, vars: map[string]Val{"self": self}, pkg: x.pkgOf(fn)}
+	var out []Term
+	for _, c := range invs {
+		out = append(out, x.evalBool(env, c.Expr))
+	}
+	x.funcsUsed["assume:object invariant of "+tn+" holds on entry (established by its constructor, fields unexported)"] = true
+	return out
+}
+
+// capturedImmutable: the captured variable is a parameter of an enclosing
+// function that is assigned only by its parameter spill, and no closure that
+// captures it stores to it — so nobody can change it behind the closure's back.
+func capturedImmutable(fn *ssa.Function, fv *ssa.FreeVar) bool {
+	idx := -1
+	for i, f := range fn.FreeVars {
+		if f == fv {
+			idx = i
+		}
+	}
+	parent := fn.Parent()
+	if idx < 0 || parent == nil {
+		return false
+	}
+	var binding ssa.Value
+	for _, b := range parent.Blocks {
+		for _, in := range b.Instrs {
+			if mc, ok := in.(*ssa.MakeClosure); ok && mc.Fn == ssa.Value(fn) && idx < len(mc.Bindings) {
+				binding = mc.Bindings[idx]
+			}
+		}
+	}
+	switch b := binding.(type) {
+	case *ssa.FreeVar:
+		return capturedImmutable(parent, b)
+	case *ssa.Alloc:
+		stores := 0
+		for _, blk := range parent.Blocks {
+			for _, in := range blk.Instrs {
+				switch in := in.(type) {
+				case *ssa.Store:
+					if in.Addr == ssa.Value(b) {
+						stores++
+						if _, isParam := in.Val.(*ssa.Parameter); !isParam {
+							return false
+						}
+					}
+				case *ssa.MakeClosure:
+					inner := in.Fn.(*ssa.Function)
+					sv := storedFreeVars(inner)
+					for i, bnd := range in.Bindings {
+						if bnd == ssa.Value(b) && i < len(inner.FreeVars) && sv[inner.FreeVars[i]] {
+							return false
+						}
+					}
+				case *ssa.Call:
+					for _, a := range in.Call.Args {
+						if a == ssa.Value(b) {
+							return false
+						}
+					}
+				}
+			}
+		}
+		return stores == 1
+	}
+	return false
+}
+
+func recvTypeName(T types.Type) string {
+	if p, ok := T.(*types.Pointer); ok {
+		T = p.Elem()
+	}
+	if n, ok := T.(*types.Named); ok {
+		return n.Obj().Name()
+	}
+	return T.String()
+}
+
+// entryNames: parameters and captured variables of the function under
+// verification, by source name (captured variables with their current value).
+func (x *Exec) entryNames(st *State) map[string]Val {
+	out := map[string]Val{}
+	for i, p := range x.fn.Params {
+		if i < len(x.entryParams) {
+			out[p.Name()] = x.entryParams[i]
+		}
+	}
+	for n, c := range x.fvCells {
+		if v, ok := st.cells[c]; ok {
+			out[n] = v
+		}
+	}
+	return out
 }
 
 func rootFn(f *ssa.Function) *ssa.Function {
@@ -222,16 +369,8 @@ func (x *Exec) runEntry(fn *ssa.Function, st *State, params []Val, oldSt *State,
 	for i, p := range fn.Params {
 		fr.vals[p] = params[i]
 	}
-	for _, fv := range fn.FreeVars {
-		T := fv.Type().(*types.Pointer).Elem()
-		c := x.newCell(fv.Name(), T, fv.Pos())
-		st.esc[c] = true
-		v := x.freshVal(st, "fv_"+fv.Name(), T)
-		v.Org = "param:" + fv.Name()
-		st.cells[c] = v
-		oldSt.cells[c] = v
-		x.inputs[fv.Name()] = v.T
-		fr.vals[fv] = Val{Loc: &Loc{Kind: LCell, Cell: c, Elem: T}, Typ: fv.Type()}
+	for fv, pv := range x.fvPtrs {
+		fr.vals[fv] = pv
 	}
 	x.inlineStack = []*ssa.Function{fn}
 	if len(fn.Blocks) == 0 {
